@@ -6,7 +6,8 @@ import runner_common as rc
 LEVEL = "proof"
 # every way of reaching the retry loop without a breaker (the projection does not contain classifier calls, which the sugar
 # entry points make once more for the absent breaker)
-OPTS = {"entries": rc.ENTRIES_NO_BREAKER}
+# (a share of the scripts interleaves a capped class with another one and sets both UNKNOWN caps at once: the caps are part of "permitted")
+OPTS = {"p_cap_mix": 0.15, "entries": rc.ENTRIES_NO_BREAKER}
 
 
 def run(chk):
